@@ -20,7 +20,8 @@ OBLIGATIONS = ['PGA.History.' + t for t in [
     'C15_output_depends_on_declared_inputs', 'C15_history_independent', 'C15_load_first_or_later',
     'C15_frame_library', 'C15_data_changes_only_by_merge', 'C15_frame_estimate', 'C15_frame_registries',
     'C15_name_is_last_decomposed', 'C15_elemental_uses_last_decomposed', 'C15_F26_witness', 'C15_full_false',
-    'C15_elemental_partial', 'C15_F1_estimate_before_decompose', 'C15_f1Safe_of_fixed']]
+    'C15_elemental_partial', 'C15_F1_estimate_before_decompose', 'C15_f1Safe_of_fixed',
+    'C15_rejected_merge_frame', 'C15_rejected_merge_full_false']]
 RULE = ('case = one operation of a random history (length 2..40) over 2-4 shipped libraries (loaded by name or by path, some '
         'twice), 3-6 molecules per library (decomposable, not decomposable, unparsable), descriptor mappings taken from earlier '
         'decompositions (also of other libraries), temperatures {298.15, 500, 900}, 11 quantities (4 with the elemental '
@@ -46,7 +47,9 @@ TRUSTED = ['modelled, not verified: GroupLibrary.Load/_do_load (which state it r
 LIBS = ['BensonGA', 'XieGA2022', 'SalciccioliGA2012', 'GRWSurface2018', 'GuSolventGA2017Vac', 'PPY', 'PtSurface2023',
         'GRWAqueous2018', 'GuSolventGA2017Aq']
 BOGUS_LIB = 'NoSuchLibrary'
-GAS = ['CC', 'CCO', 'C1CO1', 'C1CCCCC1', 'c1ccccc1', 'C=CC', 'CC(=O)O', 'CCCCCC', 'OCC=O', 'CC(C)C', 'C[Si]C', 'C(C']
+GAS = ['CC', 'CCO', 'C1CO1', 'C1CCCCC1', 'c1ccccc1', 'C=CC', 'CC(=O)O', 'CCCCCC', 'OCC=O', 'CC(C)C',
+       'CCOC', 'CC(C)CC', 'C1CCOC1',      # with groups that have no heat-capacity data (IncompleteDataWarning away from T_ref)
+       'C[Si]C', 'C(C']
 SURF = ['C([Pt])C[Pt]', '[Pt]C([Pt])C([Pt])([Pt])C=O', 'C(=O)([Pt])O', 'CC[Pt]', 'OC[Pt]', 'C(=O)[Pt]', 'CC', 'C[Si]C', 'C(C',
         'C([Pt])([Pt])C', 'OCC[Pt]']
 RU = ['CCC', '[Ru]C([Ru])C([Ru])([Ru])C', 'CC[Ru]', 'C([Ru])C[Ru]', 'CC', 'C(C', 'CCO']
@@ -54,6 +57,8 @@ MOLS = {'BensonGA': GAS, 'PPY': GAS, 'XieGA2022': RU, 'SalciccioliGA2012': SURF,
         'GuSolventGA2017Vac': SURF, 'PtSurface2023': SURF, 'GRWAqueous2018': SURF, 'GuSolventGA2017Aq': SURF}
 TEMPS = [298.15, 500.0, 900.0]
 QTYS = wk.QTYS
+PLAIN = wk.PLAIN_QTYS          # quantities asked for with no warnings filter of the caller's in force (wk.QTYS = PLAIN + filter modes)
+FILTERED = [i for i, q in enumerate(QTYS) if '!' in q]
 DUMMY = 'C'          # the molecule a baseline decomposes first when the operation's declared inputs contain no molecule
 PAR = 8              # parallel fresh processes
 
@@ -215,7 +220,8 @@ def gen_history(rng, U, length, f1_fixed, lib_pool=None, mol_pool=None):
             continue
         if r < 0.93:
             ops.append({'k': 'evaluate', 'est': rng.randrange(len(ests)), 'T': rng.randrange(len(TEMPS)),
-                        'q': (QTYS.index(rng.choice(sorted(wk.ELEMENTAL))) if rng.random() < 0.4 else rng.randrange(len(QTYS))),
+                        'q': (QTYS.index(rng.choice(sorted(q for q in wk.ELEMENTAL if '!' not in q))) if rng.random() < 0.4
+                              else rng.choice(FILTERED) if rng.random() < 0.2 else rng.randrange(len(PLAIN))),
                         'el': None})
             continue
         i, j = rng.randrange(len(libs)), rng.randrange(len(libs))
@@ -233,12 +239,12 @@ def scripted_histories(U):
         ops = [{'k': 'load', 'L': U.lib_ids[a], 'byPath': False}, {'k': 'load', 'L': U.lib_ids[b], 'byPath': False},
                {'k': 'decompose', 'lib': 0, 'm': U.mol(m)},
                {'k': 'estimate', 'lib': 0, 'from': 2, 'forMol': U.mol(m)}]
-        ops += [{'k': 'evaluate', 'est': 0, 'T': t, 'q': q, 'el': None} for t in range(len(TEMPS)) for q in range(len(QTYS))]
+        ops += [{'k': 'evaluate', 'est': 0, 'T': t, 'q': q, 'el': None} for t in range(len(TEMPS)) for q in range(len(PLAIN))]
         ops += [{'k': 'merge', 'dst': 0, 'src': 1, 'ow': True},
                 {'k': 'decompose', 'lib': 0, 'm': U.mol(m)},
                 {'k': 'estimate', 'lib': 0, 'from': len(ops) + 1, 'forMol': U.mol(m)}]
-        ops += [{'k': 'evaluate', 'est': 1, 'T': t, 'q': q, 'el': None} for t in range(len(TEMPS)) for q in range(len(QTYS))]
-        ops += [{'k': 'evaluate', 'est': 0, 'T': t, 'q': q, 'el': None} for t in range(len(TEMPS)) for q in range(len(QTYS))]
+        ops += [{'k': 'evaluate', 'est': 1, 'T': t, 'q': q, 'el': None} for t in range(len(TEMPS)) for q in range(len(PLAIN))]
+        ops += [{'k': 'evaluate', 'est': 0, 'T': t, 'q': q, 'el': None} for t in range(len(TEMPS)) for q in range(len(PLAIN))]
         out.append(ops)
     # two merges into one target, the second with overwrite: a library that only ever was a SOURCE must keep its data
     ev = lambda e: [{'k': 'evaluate', 'est': e, 'T': t, 'q': q, 'el': None} for t in range(len(TEMPS)) for q in (0, 1, 3)]
@@ -257,6 +263,31 @@ def scripted_histories(U):
                {'k': 'decompose', 'lib': 0, 'm': U.mol(good)}, {'k': 'estimate', 'lib': 0, 'from': 4, 'forMol': U.mol(good)}]
         ops += ev(1)
         ops += [{'k': 'merge', 'dst': 1, 'src': 0, 'ow': False}]
+        out.append(ops)
+    # (fourth round) the same evaluation asked for repeatedly, after other evaluations and through another estimate of the same
+    # library, while the caller has a warnings filter in force; molecules with one and with two groups that lack heat-capacity
+    # data (each warns away from T_ref; under `error` the sum stops at the first)
+    def E(e, T, q):
+        return {'k': 'evaluate', 'est': e, 'T': T, 'q': QTYS.index(q), 'el': False}
+    for lib, m1, m2 in (('BensonGA', 'CCOCC(C)CC', 'CCOC'), ('PPY', 'CC(C)CC', 'CCOCC(C)CC')):
+        ops = [{'k': 'load', 'L': U.lib_ids[lib], 'byPath': False},
+               {'k': 'decompose', 'lib': 0, 'm': U.mol(m1)}, {'k': 'estimate', 'lib': 0, 'from': 1, 'forMol': U.mol(m1)},
+               E(0, 1, 'HoRT!error'), E(0, 1, 'HoRT!error'), E(0, 1, 'HoRT!error'), E(0, 1, 'HoRT!record'), E(0, 1, 'HoRT'),
+               E(0, 1, 'HoRT!record'), E(0, 1, 'HoRT!error'), E(0, 2, 'HoRT'), E(0, 2, 'HoRT!error'), E(0, 2, 'H:kcal/mol!error'),
+               E(0, 0, 'HoRT!record'), E(0, 0, 'HoRT!record'), E(0, 1, 'GoRT!error'), E(0, 1, 'CpoR!error'),
+               {'k': 'decompose', 'lib': 0, 'm': U.mol(m2)}]
+        ops += [{'k': 'estimate', 'lib': 0, 'from': len(ops) - 1, 'forMol': U.mol(m2)},
+                E(1, 1, 'HoRT!error'), E(1, 1, 'HoRT!record'), E(1, 2, 'HoRT!record'), E(1, 2, 'HoRT!error'), E(0, 1, 'HoRT!error')]
+        out.append(ops)
+    # (fourth round) a merge that is REFUSED, between a library without and one with uncertainty data (and between two that
+    # both have them, refused after the group data were merged): what the destination holds afterwards, and what it answers
+    evs = lambda e: [{'k': 'evaluate', 'est': e, 'T': t, 'q': q, 'el': None} for t in (0, 2) for q in (0, 1, 3, 8)]
+    for dst, src, m, ow in (('PtSurface2023', 'GRWSurface2018', 'CC[Pt]', False), ('BensonGA', 'GuSolventGA2017Vac', 'CCO', False),
+                            ('XieGA2022', 'GRWAqueous2018', 'CC[Ru]', False), ('GRWSurface2018', 'GuSolventGA2017Vac', 'OC[Pt]', True)):
+        ops = [{'k': 'load', 'L': U.lib_ids[dst], 'byPath': False}, {'k': 'load', 'L': U.lib_ids[src], 'byPath': False},
+               {'k': 'decompose', 'lib': 0, 'm': U.mol(m)}, {'k': 'estimate', 'lib': 0, 'from': 2, 'forMol': U.mol(m)}]
+        ops += evs(0) + [{'k': 'merge', 'dst': 0, 'src': 1, 'ow': ow}, {'k': 'decompose', 'lib': 0, 'm': U.mol(m)}]
+        ops += [{'k': 'estimate', 'lib': 0, 'from': len(ops) - 1, 'forMol': U.mol(m)}] + evs(1) + evs(0)
         out.append(ops)
     return out
 
@@ -347,11 +378,15 @@ class ImplRun(object):
                 elif k == 'merge':
                     a, b = self.libs[op['dst']], self.libs[op['src']]
                     err = None
+                    held = wk.parts(a)
+                    offered = set(map(str, b.contents))
                     try:
                         a.Update(b, overwrite=op['ow'])
                     except Exception as e:
                         err = wk.exc_name(e)
                     o = {'merge_err': err, 'fp': wk.fingerprint(a)}
+                    if err is not None:
+                        rejected_merge(ctx, U, concrete + [c], op['dst'], err, held, wk.parts(a), offered)
             after = [wk.fingerprint(l) for l in self.libs]
             # ---- frame, directly on the implementation: only a merge may change a library's data, and only its destination
             for i, (x, y) in enumerate(zip(digests, after)):
@@ -364,6 +399,31 @@ class ImplRun(object):
             outs.append(o)
             concrete.append(c)
         return concrete, outs
+
+
+def rejected_merge(ctx, U, conc, dst, err, held, holds, offered):
+    """A merge that was refused must leave the destination as it was: a library that merely attempted a merge is a library
+    that did nothing (otherwise every later result depends on that attempt).  The code is known not to be failure-atomic for
+    GROUP data (finding FA1: the groups of the source that precede the conflict stay merged); the classifier assigns FA1 only
+    when the uncertainty block is as before, no group is gone and every new or changed group is one the source offers."""
+    ctx.count('rejected_merges')
+    if held == holds:
+        ctx.count('rejected_merges_that_left_nothing')
+        return
+    gone = sorted(g for g in held['groups'] if g not in holds['groups'])
+    new = sorted(g for g in holds['groups'] if g not in held['groups'])
+    changed = sorted(g for g in holds['groups'] if g in held['groups'] and held['groups'][g] != holds['groups'][g])
+    uq = 'as before' if held['uq'] == holds['uq'] else ('adopted from the source' if held['uq'] is None else 'changed')
+    foreign = [g for g in new + changed if g not in offered]
+    known = uq == 'as before' and not gone and not foreign
+    observed = {'raised': err, 'groups_added': len(new), 'groups_changed': len(changed), 'groups_removed': len(gone),
+                'uncertainty_data': uq, 'examples': (new + changed + gone)[:4]}
+    ctx.count('rejected_merges_FA1' if known else 'rejected_merges_unexplained')
+    what = ('a rejected merge left group data of the source in the destination library' if known else
+            'a rejected merge changed the destination library beyond taking over group data of the source: uncertainty data %s'
+            '%s%s' % (uq, ', groups removed' if gone else '', ', groups changed that the source does not hold' if foreign else ''))
+    ctx.violation(what, replay_input(U, conc, extra={'library': dst}), expected='the destination holds what it held before the merge was refused',
+                  observed=observed, finding='FA1' if known else None)
 
 
 def replay_input(U, conc, extra=None):
@@ -442,15 +502,25 @@ def check_histories(ctx, histories, fresh, f1_fixed, U):
 est_err = {}
 
 
-def eval_req(U, v, name):
-    return {'kind': 'eval', 'snap': U.prov(v['snap']), 'now': U.prov(v['now']), 'd': U.descrs[v['d']], 'name': name,
-            'evals': [[T, q, el] for T in TEMPS for q in QTYS for el in ((False, True) if q in wk.ELEMENTAL else (False,))]}
+def eval_req(U, v, name, c=None):
+    """the fresh computation an evaluation must equal.  Plain quantities: one request per (data, mapping, molecule) that
+    evaluates every temperature x quantity (shared between operations; the evaluations do not influence each other — that is
+    what the singleton cross-check and the histories establish).  A quantity asked for under a warnings filter (`c` given):
+    a request of its own, so that the baseline is the FIRST evaluation on freshly loaded objects."""
+    r = {'kind': 'eval', 'snap': U.prov(v['snap']), 'now': U.prov(v['now']), 'd': U.descrs[v['d']], 'name': name}
+    if c is not None and '!' in QTYS[c['q']]:
+        r['evals'] = [[TEMPS[c['T']], QTYS[c['q']], bool(c['el'])]]
+    else:
+        r['evals'] = [[T, q, el] for T in TEMPS for q in PLAIN for el in ((False, True) if q in wk.ELEMENTAL else (False,))]
+    return r
 
 
 def eval_index(T, q, el):
+    if '!' in q:
+        return 0
     i = 0
     for T2 in range(len(TEMPS)):
-        for q2 in QTYS:
+        for q2 in PLAIN:
             for el2 in ((False, True) if q2 in wk.ELEMENTAL else (False,)):
                 if T2 == T and q2 == q and el2 == el:
                     return i
@@ -475,9 +545,9 @@ def baseline_requests(U, c, m, conc, idx):
         return [{'kind': 'decomp', 'L': U.lib_names[m['descr']['origin']], 'm': U.mols[m['descr']['m']]}]
     if k == 'evaluate' and 'value' in m:
         v = m['value']
-        reqs = [eval_req(U, v, model_name(U, v))]
+        reqs = [eval_req(U, v, model_name(U, v), c)]
         if v['el'] is not None and c.get('_forMol') is not None:
-            reqs.append(eval_req(U, v, U.mols[c['_forMol']]))
+            reqs.append(eval_req(U, v, U.mols[c['_forMol']], c))
         return reqs
     if k == 'merge' and 'merged' in m:
         P = m['merged']
@@ -544,7 +614,7 @@ def compare(ctx, U, fresh, conc, idx, c, o, m, f1_fixed):
     if k == 'evaluate':
         v = m['value']
         i = eval_index(c['T'], QTYS[c['q']], c['el'])
-        bm = fresh.get(eval_req(U, v, model_name(U, v)))
+        bm = fresh.get(eval_req(U, v, model_name(U, v), c))
         model_val = bm['vals'][i] if 'vals' in bm else 'err:' + bm['err']
         decl = {'evaluate': {'snap': v['snap'], 'now': v['now'], 'd': v['d'], 'T': c['T'], 'q': QTYS[c['q']], 'el': c['el']}}
         case(decl)
@@ -560,7 +630,7 @@ def compare(ctx, U, fresh, conc, idx, c, o, m, f1_fixed):
             ctx.disagree('corr:c15.evaluate', hist, o, {'declared': m, 'fresh': model_val})
         # the property's wording: the estimate "made for a molecule" -> its own molecule's elemental reference
         if c['el'] and c.get('_forMol') is not None:
-            bs = fresh.get(eval_req(U, v, U.mols[c['_forMol']]))
+            bs = fresh.get(eval_req(U, v, U.mols[c['_forMol']], c))
             spec_val = bs['vals'][i] if 'vals' in bs else 'err:' + bs['err']
             if not (o['val'] == spec_val or floats_close(o['val'], spec_val)):
                 remembered = v['el']['name']
@@ -573,7 +643,11 @@ def compare(ctx, U, fresh, conc, idx, c, o, m, f1_fixed):
                                    last_decomposed=None if remembered is None else U.mols[remembered]),
                               expected=spec_val, observed=o['val'], finding='F26' if explained else None)
         elif not tie_ok:
-            ctx.violation('a property of an estimate depends on the history', hist, expected=model_val, observed=o['val'])
+            q = QTYS[c['q']]
+            ctx.violation('a property of an estimate depends on the history' if '!' not in q else
+                          'the outcome of an evaluation while the caller has a warnings filter in force (the package\'s warnings %s) '
+                          'depends on the history' % ('raised as errors' if q.endswith('!error') else 'recorded'),
+                          hist, expected=model_val, observed=o['val'])
         return
     if k == 'merge':
         P = m['merged']
@@ -761,9 +835,18 @@ def object_reuse_checks(ctx):
                               expected=str(before)[:200], observed=str(after)[:200])
 
 
+def load_own_findings(ctx):
+    """known_findings.json is assembled by the integrator (harness.mkknown); until then findings/C15.json is read directly"""
+    p = os.path.join(common.VERIF, 'findings', 'C15.json')
+    if os.path.exists(p):
+        for e in json.load(open(p)):
+            ctx.known.setdefault(e['id'], e)
+
+
 def run(ctx):
     rng = ctx.rng
     wk.quiet()
+    load_own_findings(ctx)
     fresh = Fresh(ctx)
     U = Universe()
     # F1 probe and a first sample of true singletons (one request per fresh process)
@@ -775,7 +858,7 @@ def run(ctx):
         ctx.count('corpus')
         replay(ctx, rec, fresh=fresh, U=U, f1_fixed=f1_fixed)
     object_reuse_checks(ctx)
-    n_hist = ctx.n(int(os.environ.get('C15_N', 30)), 400)
+    n_hist = ctx.n(int(os.environ.get('C15_N', 36)), 400)
     block = 40
     # per run (seed) a sub-universe, so that fresh results are shared between histories; the thorough tier uses everything
     if ctx.thorough():
@@ -851,8 +934,17 @@ def strip(c):
 def replay(ctx, rec, fresh=None, U=None, f1_fixed=None):
     """re-run a recorded history (see `replay_input`) on the implementation against the specification"""
     inp = rec.get('input', rec)
-    before = len(ctx.violations) + sum(v['count'] for v in ctx.known_seen.values())
+    load_own_findings(ctx)
+    # a record of a KNOWN finding (corpus) fails when the finding shows; any other record fails on a violation that is not one
+    known_counts = bool(rec.get('finding') or rec.get('id'))
+    tally = lambda: len(ctx.violations) + (sum(v['count'] for v in ctx.known_seen.values()) if known_counts else 0)
+    before = tally()
     wk.quiet()
+    if not ctx.driver_ok:
+        # `--replay` does not build; the comparison needs the compiled model driver to name each operation's declared inputs
+        if not os.path.exists(common.DRIVER):
+            raise common.MachineryError('replaying a C15 history needs the compiled model driver: run ./check --setup first')
+        ctx.driver_ok = True
     fresh = fresh or Fresh(ctx)
     if f1_fixed is None:
         f1_fixed = bool(run_workers(ctx, [[{'kind': 'probe_f1'}]])[0][0]['f1Fixed'])
@@ -867,8 +959,7 @@ def replay(ctx, rec, fresh=None, U=None, f1_fixed=None):
     conc, outs = impl.run(ctx, [dict(c) for c in inp['history']], ctx.rng)
     link_estimates(conc, outs)
     check_histories(ctx, [(conc, outs)], fresh, f1_fixed, U2)
-    after = len(ctx.violations) + sum(v['count'] for v in ctx.known_seen.values())
-    return after == before
+    return tally() == before
 
 
 LEVEL_TEXT = ('Lean 4 theorems, for every behaviour of the external components and every history of any length: the output of the '
